@@ -255,12 +255,16 @@ func (x *Idx) Insert(u []Series, items []int, path string, withEmpty bool, st *r
 	ids := make([]uint64, len(items))
 	switch path {
 	case "builder":
-		// engine/ts_storage.go: look every row up first, create only when one is unknown
+		// engine/ts_storage.go writeIndex, step by step: rows are looked up only UNTIL the first
+		// unknown one; the rows behind it reach the index without having been looked up
 		need := false
 		for _, name := range order {
 			rows := byM[name]
 			for i := range *rows {
 				ri := &(*rows)[i]
+				if need {
+					continue
+				}
 				id, err := x.ms.GetSeriesIdBySeriesKey(ri.IndexKey)
 				if err != nil {
 					return nil, fmt.Errorf("GetSeriesIdBySeriesKey: %w", err)
